@@ -27,6 +27,8 @@ type C04Scenario struct {
 	Base     uint64    `json:"base"`
 	Ops      []StoreOp `json:"ops"`
 	Parallel bool      `json:"parallel,omitempty"` // parallel-delete threshold lowered to 2
+	// Fork, when set, selects the roll-back engine (c04fork_test.go); Ops and Base are unused then.
+	Fork *C04ForkScenario `json:"fork,omitempty"`
 }
 
 const storeChainLen = 420
@@ -152,6 +154,9 @@ func reverse(hs []uint64) {
 }
 
 func runC04(t *testing.T, s C04Scenario) (res Result) {
+	if s.Fork != nil {
+		return runC04Fork(t, s)
+	}
 	col := evid.For("C04")
 	bubble(t, func() {
 		e := newStoreEnv(s.Cfg, storeChainLen)
